@@ -102,20 +102,29 @@ impl ContinuousOutput {
             return None;
         }
         
-        // Strict interpolation - only return segment if t is within it. The step that really
-        // contains t wins; the slack only admits times a rounding error outside every step
-        // (otherwise, with steps of 1e-12 or less, a neighbouring step would be extrapolated).
-        for tol in [0.0, 1e-12] {
-            for seg in &self.segs {
-                let left = seg.xold.min(seg.xold + seg.h);
-                let right = seg.xold.max(seg.xold + seg.h);
-                if t >= left - tol && t <= right + tol {
-                    return Some(seg);
-                }
+        // Strict interpolation - only return segment if t is within it.
+        self.containing_segment(t)
+    }
+
+    /// The step that really contains t wins; the slack only admits times a rounding error
+    /// outside every step, and then the nearest step is used (otherwise, with steps of 1e-12
+    /// or less, a far-away step would be extrapolated).
+    fn containing_segment(&self, t: Float) -> Option<&DenseSegment> {
+        let mut best = None;
+        let mut best_dist = 1e-12;
+        for seg in &self.segs {
+            let left = seg.xold.min(seg.xold + seg.h);
+            let right = seg.xold.max(seg.xold + seg.h);
+            if t >= left && t <= right {
+                return Some(seg);
+            }
+            let dist = (left - t).max(t - right);
+            if dist <= best_dist {
+                best_dist = dist;
+                best = Some(seg);
             }
         }
-        
-        None
+        best
     }
     
     fn find_segment_extrapolate(&self, t: Float) -> Option<&DenseSegment> {
@@ -124,14 +133,8 @@ impl ContinuousOutput {
         }
         
         // First check if t is within any segment (interpolation); exact containment first
-        for tol in [0.0, 1e-12] {
-            for seg in &self.segs {
-                let left = seg.xold.min(seg.xold + seg.h);
-                let right = seg.xold.max(seg.xold + seg.h);
-                if t >= left - tol && t <= right + tol {
-                    return Some(seg);
-                }
-            }
+        if let Some(seg) = self.containing_segment(t) {
+            return Some(seg);
         }
         
         // If not within any segment, allow extrapolation using the closest segment
